@@ -307,9 +307,6 @@ func validate(fields []FieldT, vals []FieldV, depth int) error {
 				}
 			}
 		case KAVP:
-			if ft.Wrap == WSlice {
-				return fmt.Errorf("field %d: []AVP is not among the shapes", i)
-			}
 			for _, a := range v.AVPs {
 				if a == nil {
 					return fmt.Errorf("field %d: nil AVP", i)
